@@ -2,6 +2,8 @@
 child interpreters started with other flags (-O, -OO, -bb …): the library must behave the same there."""
 import sys
 import os
+if os.environ.get("VERIF_BYTEORDER"):                      # simulate the other host byte order for code that reads
+    sys.byteorder = os.environ["VERIF_BYTEORDER"]          # sys.byteorder at call time (tools.xor does)
 sys.path.insert(0, os.path.dirname(os.path.abspath(__file__)))
 import pyexec  # noqa: E402
 import warnings  # noqa: E402
